@@ -17,6 +17,16 @@ CHECKS = {
   note="Trusts the harness model of decode-time accumulation and ref/frag's reading of ISO/IEC 14496-12 8.8; mixed full/metadata-only fragments are outside the documented API and not generated.",
   technique="runtime monitor: recorded API histories with unique payload stamps checked against a reference model and an independent byte-level reader",
   design_ref="DESIGN.md §3 C05"),
+ "C06": dict(
+  text="Round-trip monitor: 5.5 k (quick) / 250 k (thorough) generated clear single-track CMAF files (AVC/HEVC from own serializers, audio, the repo's real streams; NAL size classes around every threshold, extra uuid/unknown/free boxes, pssh; keys, 8/16-byte IVs incl. counter wrap, cenc/cbcs) go through the library protocol and the mp4ff-encrypt/mp4ff-decrypt binaries; decrypted output compared sample-by-sample and box-by-box (independent walker/readers) with the same-mode re-encode of the clear input; third-party clause on the repo's encrypted files with right and wrong keys.",
+  note="Baseline is the clear input after the same plain encode cycles; trun data_offset is checked semantically through the sample bytes; documented refusals (avc3/hev1 with -init, multi-trun) are counted, not judged.",
+  technique="runtime monitor: generated inputs with ground truth through library and tool paths, conservation/identity oracle on output bytes",
+  design_ref="DESIGN.md §3 C06"),
+ "C07": dict(
+  text="Reference-cipher monitor: the same generated inputs as C06; the encoded encrypted file is read only with independent readers (senc/saiz/saio/tenc/schm/frma/trun) and checked clause by clause: subsample partition, clear/protected classification with the statement's thresholds (slice-header length known from the generator's serializer), saiz/saio consistency, IV advance and no counter-block reuse, protected bytes equal an independent AES-CTR / AES-CBC-pattern implementation built on the crypto/aes block function, all other bytes identical to the clear input.",
+  note="Trusts ref/cenc (cross-checked against NIST SP 800-38A vectors) and the generator's own slice-header serializers for the cbcs clause; the cbcs slice-header clause is not applied to the repo's real streams.",
+  technique="runtime monitor: byte-level invariant checks and differential comparison with an independent reference cipher",
+  design_ref="DESIGN.md §3 C07"),
  "C08": dict(
   text="Differential monitor: the repo's files plus 2 k (quick) / 100 k (thorough) generated progressive files (compact and 64-bit mdat headers, mdat before/after moov) decoded in both modes; trees, sizes, Info dumps compared, and ReadData/CopyData/CopySampleData for all small ranges, boundary+random larger ranges and all work-buffer sizes compared with the file bytes themselves; lazy mdat Encode = header only.",
   note="Ground truth for every range is the input file's own bytes; sample ranges come from the independent table expansion (ref/stbl).",
